@@ -131,6 +131,87 @@ def inst_tag(f):
     return "%s,%s" % (t, "true" if ", true>" in k else "false")
 
 
+# The Standard's transition relation of the basic URL parser, in ada's state names.  ada removes the fragment before the
+# loop (no FRAGMENT state, QUERY is terminal) and its HOST case serves "host state" and "hostname state".  Each line was
+# read against https://url.spec.whatwg.org/#concept-basic-url-parser.  A case that runs into the next case label
+# (fall-through) counts as a transition to that state, exactly like `state = state::Y; break;`.
+STANDARD_EDGES = {
+    "SCHEME_START": {"SCHEME", "NO_SCHEME"},
+    "SCHEME": {"FILE", "SPECIAL_RELATIVE_OR_AUTHORITY", "SPECIAL_AUTHORITY_SLASHES", "PATH_OR_AUTHORITY", "OPAQUE_PATH",
+               "NO_SCHEME"},
+    "NO_SCHEME": {"RELATIVE_SCHEME", "FILE"},                      # (fragment-only reference on an opaque base: handled in place)
+    "SPECIAL_RELATIVE_OR_AUTHORITY": {"SPECIAL_AUTHORITY_IGNORE_SLASHES", "RELATIVE_SCHEME"},
+    "PATH_OR_AUTHORITY": {"AUTHORITY", "PATH"},
+    "RELATIVE_SCHEME": {"RELATIVE_SLASH", "QUERY", "PATH"},
+    "RELATIVE_SLASH": {"SPECIAL_AUTHORITY_IGNORE_SLASHES", "AUTHORITY", "PATH"},
+    "SPECIAL_AUTHORITY_SLASHES": {"SPECIAL_AUTHORITY_IGNORE_SLASHES"},
+    "SPECIAL_AUTHORITY_IGNORE_SLASHES": {"AUTHORITY"},
+    "AUTHORITY": {"HOST"},
+    "HOST": {"PORT", "PATH_START"},
+    "PORT": {"PATH_START"},
+    "FILE": {"FILE_SLASH", "QUERY", "PATH"},
+    "FILE_SLASH": {"FILE_HOST", "PATH"},
+    "FILE_HOST": {"PATH", "PATH_START"},
+    "PATH_START": {"PATH", "QUERY"},
+    "PATH": {"QUERY"},
+    "OPAQUE_PATH": {"QUERY"},
+    "QUERY": set(),
+}
+# the validation-only instantiation returns as soon as nothing later can fail (C08.R2 decides where): these states may
+# have fewer successors there, never other ones
+VALIDATION_ONLY_EARLY = {"PATH_START", "PATH", "OPAQUE_PATH", "PORT"}
+
+
+def effective_edges(m, x):
+    """successors of state x: states assigned inside case x's own code, plus the case labels its code runs into"""
+    ft = set(m.fallthrough.get(x, set()))
+    inherited = set()
+    for y in ft:
+        inherited |= m.region[y]
+    own = set()
+    for bid in m.region[x] - inherited:
+        for (y, _s) in m.assigns.get(bid, []):
+            own.add(y)
+    return own | ft
+
+
+def check_transitions(ctx, fx, rule):
+    """The transition relation extracted from the CFG (`state = state::Y` inside case X, or case X running into label
+    Y) equals the Standard's.  A redirected, missing or additional transition sends some input through a state the
+    Standard does not visit at that point."""
+    ms = machines(fx)
+    n = 0
+    for f, m in ms:
+        tag = inst_tag(f)
+        if getattr(m, "initial", None) != "SCHEME_START":
+            ctx.fail(rule, "parse_url_impl<%s>: initial state" % tag,
+                     "the parser starts in %s; the Standard starts in scheme start state" % getattr(m, "initial", None),
+                     where=f["loc"].replace("/repo/", ""))
+        unknown = sorted(set(m.edges) - set(STANDARD_EDGES))
+        if unknown:
+            ctx.broken("%s: parse_url_impl<%s> has states %s that the transition table does not know "
+                       "(rules/statemachine.py STANDARD_EDGES): needs re-triage" % (rule, tag, unknown))
+        for x in sorted(STANDARD_EDGES):
+            want = STANDARD_EDGES[x]
+            n += 1
+            if x not in m.edges:
+                ctx.fail(rule, "parse_url_impl<%s>: state %s" % (tag, x), "the switch has no case for state::%s" % x,
+                         where=f["loc"].replace("/repo/", ""))
+                continue
+            got = effective_edges(m, x)
+            lenient = tag.endswith("false") and x in VALIDATION_ONLY_EARLY
+            ok = (got <= want) if lenient else (got == want)
+            extra, missing = sorted(got - want), sorted(want - got)
+            ctx.check(rule, "parse_url_impl<%s>: successors of %s" % (tag, x), ok,
+                      "-> {%s}" % ", ".join(sorted(got)),
+                      "state %s goes to {%s}; the Standard's transitions from it are {%s}%s%s" % (
+                          x, ", ".join(sorted(got)), ", ".join(sorted(want)),
+                          "; unexpected: %s" % ", ".join(extra) if extra else "",
+                          "; missing: %s" % ", ".join(missing) if missing and not lenient else ""),
+                      where=f["loc"].replace("/repo/", ""))
+    ctx.floor(rule, n, 57, "(instantiation, state) pairs compared with the Standard's transition relation")
+
+
 def check_switch_shape(ctx, fx, rule):
     ms = machines(fx)
     ctx.floor(rule, len(ms), 3, "instantiations of parse_url_impl")
